@@ -1,23 +1,17 @@
 #!/usr/bin/env python3
 """try_patch.py <patch> [PID ...] — apply a patch to a scratch copy of /repo and run the given checks (default: all) against it."""
-import os, shutil, subprocess, sys, tempfile
-HERE = os.path.dirname(os.path.abspath(__file__)); VERIF = os.path.dirname(HERE)
-patch = os.path.abspath(sys.argv[1]); pids = sys.argv[2:] or ["C%02d" % i for i in range(1, 20) if i != 4]
-scratch = tempfile.mkdtemp(prefix="verif-try-")
-try:
-    repo = os.path.join(scratch, "repo")
-    subprocess.check_call(["rsync", "-a", "--exclude", "target", "--exclude", ".git", "/repo/", repo + "/"])
-    r = subprocess.run(["patch", "-p1", "-s", "-d", repo, "-i", patch], stdout=subprocess.PIPE, stderr=subprocess.STDOUT, text=True)
-    if r.returncode != 0:
-        print("patch does not apply:", r.stdout[-300:]); sys.exit(2)
-    env = dict(os.environ, REPO=repo)
+import os
+import sys
+import harness
+
+patch = os.path.abspath(sys.argv[1])
+pids = sys.argv[2:] or harness.PROPS
+with harness.Battery() as bat:
+    repo, err = bat.scratch(patch)
+    if err:
+        print(err)
+        sys.exit(2)
     for pid in pids:
-        out = subprocess.run([os.path.join(VERIF, "check"), pid, "quick"], cwd=VERIF, env=env, stdout=subprocess.PIPE, stderr=subprocess.STDOUT, text=True)
-        lines = [l.strip()[:260] for l in out.stdout.splitlines() if l.strip().startswith("violation") or "INFRA" in l or "Traceback" in l]
-        print("%s exit=%d %s" % (pid, out.returncode, ("| " + " || ".join(lines[:3])) if lines else ""))
-finally:
-    shutil.rmtree(scratch, ignore_errors=True)
-    cache = os.path.join(VERIF, ".cache")
-    for d in os.listdir(cache):
-        if d.startswith("facts-") or d.startswith("evidence-"):
-            shutil.rmtree(os.path.join(cache, d), ignore_errors=True)
+        code, keys, text = bat.run(repo, pid)
+        lines = [l.strip()[:260] for l in text.splitlines() if l.strip().startswith("violation") or "INFRA" in l or "Traceback" in l]
+        print("%s exit=%d %s" % (pid, code, ("| " + " || ".join(lines[:3])) if lines else ""))
